@@ -8,8 +8,8 @@ PROPS = {
         "gens": ["Ids"],
         "required_theorems": ["pack_injective", "pack_lt_iff", "int_sorted_is_type_id_version_sorted",
                               "element_ref", "object_type", "layout_version",
-                              ],
-                              
+                              "parse_show_object", "parse_show_element", "parse_show_feature",
+                              "parseObject_shape", "parseElement_shape", "parseFeature_shape"],
         "trusted_base": [GO_LIBS + "strings.Split, strconv.ParseInt, fmt %s/%d, sort.Sort (validated differentially by the model stream)",
                          "Go int is 64 bit on the platform the check runs on"],
         "technique": "Lean 4 theorems over a BitVec-64 model regenerated from the Go source by a translator; text codec model tied by differential line protocol",
